@@ -382,3 +382,26 @@ def register(reg):
       "rounding out of scope; bundled untils are integral ms and offsets whole seconds (asserted by the translator on "
       "every run); lean/Generated/Zones*.lean regenerated from the repo's current tzdata.data by gx.translate.gen_zones.",
       "Lean 4 theorems over a zone record + generated per-record kernel-decided obligations + differential correspondence")
+
+  reg("C28", "proof",
+      "BulkAddOrUpdateRecord / AddOrUpdateRecord are modelled line by line (GristModel/Upsert.lean: the argument checks in code "
+      "order, the loop accumulating adds/updates from lookups on the table before the action, fill-in of the new ids, then "
+      "BulkAddRecord and BulkUpdateRecord with Engine.trim_update_action) next to the documented row-at-a-time reference. Proved "
+      "for ALL tables, requests and option combinations: upsert_impl_eq_spec_partial (same error / same returned ids / same rows / "
+      "same cells whenever no record is named twice by the accumulated update), upsert_impl_eq_spec_distinct_keys (that holds for "
+      "distinct row ids and require keys distinct after conversion), add_or_update_eq_spec (single-record form, unconditional), "
+      "upsert_validation + _on_many/_empty_require/_lengths/_duplicate (every invalid class is rejected by the argument checks, "
+      "before the loop, by implementation and reference alike, and which ValueError), upsert_frame (rows = old rows ++ fresh ids; "
+      "updateRecordIds are existing rows; unlisted records unchanged; columns outside col_values unchanged; unconditional). "
+      "The two full statements that are false of the code are refuted by decide-checked witnesses that the check replays on the "
+      "engine: impl_eq_spec_full_false (trim_update_action against the pre-action table when two input rows name one record) "
+      "and validation_full_false (keys equal only after type conversion are accepted). Differentially validated only: that the "
+      "model equals the real code (error class + which check, retValues, every data cell, through a live engine incl. formula / "
+      "unknown columns, chained cases with persistent lookup indexes) and an independent Python reference on exact values, "
+      "document-level frame (no other table, manualSort of old rows), rejected requests leave doc.snapshot() unchanged.",
+      "Parameters taken from the live column objects: col.convert of every request cell, column defaults, table.next_row_id(); "
+      "lookup_records = exact scan in row-id order (C13/C05). Scalars None/bool/int/str; no 'id'/'manualSort' keys, no empty "
+      "(formula-less) columns; option values boolean or absent; <=1 non-writable col_values column. Theorem hypotheses: next "
+      "above every row id, row ids distinct. Three recorded findings (known_findings.json).",
+      "Lean 4 theorems (fold invariant accumulate-vs-immediate, per-row view of update sequences, trim harmless without repeated "
+      "ids) + differential correspondence through a live engine + independent reference oracle")
